@@ -247,9 +247,9 @@ def proof_step(prop, thorough=False):
     text = out + err
     # "'name' depends on axioms: [a, b]"  or "'name' does not depend on any axioms"
     found = {}
-    for m in re.finditer(r"'([^']+)' depends on axioms:\s*\[([^\]]*)\]", text, re.S):
+    for m in re.finditer(r"'([^\n]+?)' depends on axioms:\s*\[([^\]]*)\]", text, re.S):
         found[m.group(1)] = [a.strip() for a in m.group(2).replace("\n", " ").split(",") if a.strip()]
-    for m in re.finditer(r"'([^']+)' does not depend on any axioms", text):
+    for m in re.finditer(r"'([^\n]+?)' does not depend on any axioms", text):
         found[m.group(1)] = []
     discharged = 0
     for t in thms:
